@@ -43,6 +43,11 @@ pub fn run_command_line(sh: &mut Shell, line: &str, tty: bool,
         if sep == "||" && status == 0 {
             continue;
         }
+        if token.trim().is_empty() {
+            // blanks after the last `;` are not a command: the status
+            // stays the one of the last pipeline that ran
+            continue;
+        }
         let cmd = token.clone();
         let cr = run_proc(sh, &cmd, tty, capture);
         status = cr.status;
